@@ -201,10 +201,10 @@ PROPS = {
                  'T8 contract-only syscall wrappers: open_inode, import, do_lookup, forget, create_file_excl, set_creds, drop_cap_fsetid, sync_fd, stat_fd (handles.py docstring A5); fewer than 2^64-1 handle allocations'],
     ),
     'C10': dict(
-        vx_units=['ovl_layer', 'ovl_real', 'ovl_merge', 'ovl_ops', 'ovl_inodes'], kx=[],
+        vx_units=['ovl_layer', 'ovl_real', 'ovl_merge', 'ovl_ops', 'ovl_inodes', 'ovl_view'], kx=[],
         design_ref='DESIGN.md A.4 / A.6',
         not_covered=[
-            'equality of the whole visible tree with the overlayfs union over operation histories: decided are the union rules for ONE name over arbitrary layer listings and the "only the upper layer is ever modified" frame, not the live-view bookkeeping (inode / children tables, lookup_node, load_directory, do_readdir, do_lookup, readdir paging)',
+            'equality of the whole visible tree with the overlayfs union over operation HISTORIES as one statement: decided are the union rules for ONE name over arbitrary layer listings, the "only the upper layer is ever modified" frame, and - since unit ovl_view - the live view per operation (load_directory enters exactly the union of the layers under fresh numbers, lookup_node / do_lookup resolve exactly the table entry, forget removes exactly the forgotten node, do_readdir lists every visible child once); not the bookkeeping inside the mutating operations beyond the clauses named in DESIGN A.4 (do_rm / do_create insert_child / insert_inode calls), import(), rename (unimplemented: EXDEV)',
             'rename (unimplemented in the code: EXDEV), Drop / forget accounting, concurrency, non-UTF-8 names, special files',
         ],
         trusted=['A-LAYER-FN: the answer of a layer is a function of the arguments of the call (no contract relates two reads across a mutation); generated mini-model of trait FileSystem / Layer with read(2)/write(2) semantics over a file with data and cursor; kernel meaning of mknod and xattrs',
